@@ -230,6 +230,9 @@ class Mon(Base):
             function({self.name: {"value": self.value, "timestamp": 0.0}})
 
     def clear_sub(self, function):
+        if self._fault("clear_sub") == "raise":
+            self._log("clear_sub", "raise")
+            raise DevErr(f"{self.name}.clear_sub raised")
         self._log("clear_sub")
         if function in self.subs:
             self.subs.remove(function)
